@@ -144,7 +144,42 @@ func TestC17(t *testing.T) {
 		// a few adversarial peer blocks (state-invalid ones make multi-block walks abort part-way)
 		last := ""
 		cfg2 := cfg
+		// directed sequence (round-7 change C17-k: the error path of a multi-block walk restores a meta snapshot taken at
+		// the walk's entry): a valid block V on the tip, a state-invalid block I on V (forged award: stored by the ledger,
+		// refused by the state machine), Walk(I) - applies V, which may raise the irreversible height, and aborts at I -,
+		// then a walk back to the pointer's parent (an undoing walk: refused exactly when it crosses the height)
+		var queue []func(rt *rapid.T, nm *hx.NodeMachine) hx.NOp
 		cfg2.Mix = func(rt *rapid.T, nm *hx.NodeMachine) hx.NOp {
+			if len(queue) > 0 {
+				f := queue[0]
+				queue = queue[1:]
+				return f(rt, nm)
+			}
+			if m := nm.LM.M; nm.Window > 0 && nm.Ptr == m.Tip && nm.Valid[m.Tip] && nm.States[m.Tip] != nil && rapid.IntRange(0, 11).Draw(rt, "abortedwalk") == 0 {
+				queue = append(queue,
+					func(rt *rapid.T, nm *hx.NodeMachine) hx.NOp {
+						v := len(nm.LM.M.Blocks) - 1
+						if !nm.LM.M.Blocks[v].Stored || !nm.Valid[v] || nm.States[v] == nil {
+							queue = nil
+							return hx.NOp{Op: "sync"}
+						}
+						op := genPeerOn(rt, nm, cfg, v)
+						op.CBIn = 1
+						op.Expect = "coinbase-with-input-or-write"
+						return op
+					},
+					func(rt *rapid.T, nm *hx.NodeMachine) hx.NOp {
+						return hx.NOp{Op: "walk", Target: len(nm.LM.M.Blocks) - 1, Expect: "walk-aborted-behind-a-valid-block"}
+					},
+					func(rt *rapid.T, nm *hx.NodeMachine) hx.NOp {
+						p := nm.LM.M.Blocks[nm.Ptr].Parent
+						if p < 0 {
+							p = 0
+						}
+						return hx.NOp{Op: "walk", Target: p, Expect: "undoing-walk-after-aborted-walk"}
+					})
+				return genPeerOn(rt, nm, cfg, m.Tip)
+			}
 			if last == "truncate" && rapid.Bool().Draw(rt, "restartaftertruncate") {
 				return hx.NOp{Op: "reopen", Expect: "restart-right-after-truncation"} // start-up code sees a ledger below the persisted height
 			}
